@@ -24,6 +24,10 @@ MUTANTS = [
     m("c14-sorted-then-reversed-source", "R3", '            indexed_chain_outputs.sort(key=lambda indexed_output: indexed_output[0])\n            chain_outputs = [outp for _, outp, _ in indexed_chain_outputs]\n', "            ordered = sorted(indexed_chain_outputs, key=lambda t: t[0])\n            chain_outputs = [outp for _, outp, _ in indexed_chain_outputs]\n"),
     m("c14-twin-sorted-call", None, '            indexed_chain_outputs.sort(key=lambda indexed_output: indexed_output[0])\n            chain_outputs = [outp for _, outp, _ in indexed_chain_outputs]\n', "            ordered = sorted(indexed_chain_outputs, key=lambda t: t[0])\n            chain_outputs = [outp for _, outp, _ in ordered]\n", twin=True),
     m("c14-twin-index-addressed-store", None, '            indexed_chain_outputs.sort(key=lambda indexed_output: indexed_output[0])\n            chain_outputs = [outp for _, outp, _ in indexed_chain_outputs]\n', "            chain_outputs = [None] * len(indexed_chain_outputs)\n            for i, outp, _s in indexed_chain_outputs:\n                chain_outputs[i] = outp\n", twin=True),
+    m("c14-init-search-warm-start", "R5", "        integrator.step_size = 1\n        delta_h_threshold", "        if integrator.step_size is None:\n            integrator.step_size = 1\n        delta_h_threshold", file="adapters.py"),
+    m("c14-init-search-no-reset", "R5", "        integrator.step_size = 1\n        delta_h_threshold", "        delta_h_threshold", file="adapters.py"),
+    m("c14-init-search-reset-scaled", "R5", "        integrator.step_size = 1\n        delta_h_threshold", "        integrator.step_size = 0.5 * integrator.step_size if integrator.step_size else 1\n        delta_h_threshold", file="adapters.py"),
+    m("c14-twin-init-search-reset-float", None, "        integrator.step_size = 1\n        delta_h_threshold", "        integrator.step_size = 1.0\n        delta_h_threshold", file="adapters.py", twin=True),
     m("c14-no-sort", "R3", "            indexed_chain_outputs.sort(key=lambda indexed_output: indexed_output[0])\n", ""),
     m("c14-sort-wrong-key", "R3", "indexed_chain_outputs.sort(key=lambda indexed_output: indexed_output[0])", "indexed_chain_outputs.sort(key=lambda indexed_output: id(indexed_output[1]))"),
     m("c14-undo-F8-writeback", "R4", WB, ""),
